@@ -204,6 +204,10 @@ def _psk_natural_spec(c, M, phi):
     pts = []
     for p in range(M):
         ang = 2.0 * PI / M * p + phi
+        if isinstance(ang, float):           # concrete offset (the derived classes): the spec is a number
+            pts.append((math.cos(ang) if abs(math.cos(ang)) >= 1e-15 else 0.0,
+                        math.sin(ang) if abs(math.sin(ang)) >= 1e-15 else 0.0))
+            continue
         re, im = sym.lift(ang).cos(), sym.lift(ang).sin()
         re = sym.ite(abs(re) < 1e-15, 0, re)
         im = sym.ite(abs(im) < 1e-15, 0, im)
@@ -220,6 +224,11 @@ def _psk_labelling_goals(c, it, M, obj_symbols, phi):
     conj = []
     for p in range(M):
         lab = int(binary2gray(p)) if False else (p ^ (p >> 1))     # spec function, not the code
+        if isinstance(nat[p][0], float):
+            v = obj_symbols[lab]
+            ok = isinstance(v, (complex, float, np.number)) and abs(complex(v) - complex(nat[p][0], nat[p][1])) <= 1e-12
+            conj.append(z3.BoolVal(bool(ok)))
+            continue
         s = sym.to_complex(obj_symbols[lab])
         conj.append((s.re == nat[p][0]).t)
         conj.append((s.im == nat[p][1]).t)
@@ -272,6 +281,25 @@ def ob_psk_setoffset(M):
     return verify(body, replay=rp, check_side=False, timeout_ms=60000)
 
 
+@obligation("psk/qpsk_class_gray_labelled",
+            desc="QPSK() (the derived class, no argument) leaves its constructor with the PSK postcondition for M=4, phi=pi/4: "
+                 "label binary2gray(p) at angular position p")
+def ob_qpsk_class():
+    def body(c, it):
+        c.axioms_on = False
+        from pyphysim.modulators.fundamental import QPSK, PI
+        o = it.call(QPSK, [])
+        goals = _psk_labelling_goals(c, it, 4, o.fields.get("symbols"), PI / 4.)
+        goals.append(Goal("order of the derived class is 4", it.getattr(o, "M") == 4))
+        return goals
+
+    def rp(model):
+        from pyphysim.modulators.fundamental import QPSK
+        bad = _psk_native_gray_violations(np.asarray(QPSK().symbols))
+        return {"confirmed": bool(bad), "class": "QPSK", "non_gray_neighbour_pairs": bad[:4]}
+    return verify(body, replay=rp, check_side=False, timeout_ms=60000)
+
+
 def _psk_native_gray_violations(symbols):
     """labels of minimum-distance neighbours must differ in one bit (native check)"""
     M = len(symbols)
@@ -290,17 +318,27 @@ def _psk_native_gray_violations(symbols):
 
 @obligation("psk/neighbours_native_all_orders", kind="exhaustive", timeout=900,
             desc="every PSK order 2..2^12 x offsets {0, pi/M, pi/4, 0.1, -2.5, 1e-16+pi/2}: minimum-distance neighbours "
-                 "differ in exactly one bit, M distinct points (real code, numeric)")
+                 "differ in exactly one bit, M distinct points; the derived classes QPSK() and BPSK() through modulate(arange(M)) (real code, numeric)")
 def ob_psk_native():
+    from pyphysim.modulators import fundamental
     from pyphysim.modulators.fundamental import PSK
 
     def cases():
+        yield {"cls": "QPSK", "M": 4}
+        yield {"cls": "BPSK", "M": 2}
         for k in range(1, 13):
             M = 2**k
             for off in (0.0, math.pi / M, math.pi / 4, 0.1, -2.5, math.pi / 2 + 1e-16):
                 yield {"M": M, "phaseOffset": off}
 
     def check(case):
+        if "cls" in case:
+            m = getattr(fundamental, case["cls"])()
+            pts = np.asarray(m.modulate(np.arange(m.M)), dtype=complex)     # the labels as the public interface emits them
+            if len(set(np.round(pts, 12))) != m.M or m.M != case["M"]:
+                return {"distinct_points": len(set(np.round(pts, 12))), "M": int(m.M)}
+            bad = _psk_native_gray_violations(pts)
+            return {"non_gray_pairs": bad[:4]} if bad else None
         if (not (case["M"] <= 1024)) and case["phaseOffset"] not in (0.0, 0.1):
             return None
         m = PSK(case["M"], case["phaseOffset"])
